@@ -11,6 +11,11 @@ Oracles (none of them re-types the library's Bell-polynomial formulas):
     by the explicit inverse chain rule  Y' = y'/g',  Y'' = (y'' - g''Y')/g'^2,  Y''' = (y''' - 3g'g''Y'' - g'''Y')/g'^3.
   * well-posedness of every generated BVP is established independently (fundamental matrix by scipy's solve_ivp on the x-system,
     condition number of the boundary functional matrix), so that an ill-conditioned draw is never reported as a failure.
+Error bounds are noise-aware: factor x (rtol*scale + atol) x max(|g'|, 1/|g'|)^k for the k-th derivative (IVP), factor x tol x scale x
+conditioning x max(|g'|, 1/|g'|)^k (BVP); the factors leave a margin of >= 10 over the largest error seen on the unchanged library.
+Every evaluation that calls a SciPy solver runs under a 60 s alarm, so that a regression which makes a solver loop is a failure, not a hang.
+No defect of the unchanged library is currently recorded for this property (three were found while writing the driver and have been
+repaired in /repo: in-place update of f's return value, implicit IVP methods, transforms that rejected scalar points).
 """
 import os
 
@@ -993,7 +998,8 @@ def replay(req):
         low = name.lower()
         only = "bvp" if ("bvp" in low or "/bc" in low) else ("ivp" if ("ivp" in low or what == "ivp") else None)
         rhs_alias_contracts(col, seed)
-        public_family(col, seed, "quick", only=only)
+        if not new():
+            public_family(col, seed, "quick", only=only)
     f = _first_failure(col, prefer)
     if f is not None and ":known-" not in f["case_id"]:
         return {"failed": True, "case_id": f["case_id"], "detail": f["detail"], "input": f["input"]}
